@@ -87,28 +87,23 @@ static volatile uint32_t g_a = 0, g_b = 0, g_c = 0;
 static volatile int g_nargs = 0;
 #define CUR(fn) (g_fn = (fn))
 
-static void on_signal(int sig)
+// a hard crash (SIGFPE/SIGSEGV/SIGILL from a trapping bounds check/...) is attributed to the operands being evaluated:
+// engine/report.hpp's handler calls this hook, then prints the stats and a "crashed" record
+static void crash_hook(const char* signame)
 {
-    char buf[1024];
-    const char* sn = sig == SIGFPE ? "SIGFPE" : sig == SIGSEGV ? "SIGSEGV" : sig == SIGILL ? "SIGILL" : sig == SIGBUS ? "SIGBUS" : "SIGABRT";
-    char args[128];
-    int n = g_nargs;
-    if (n <= 1) std::snprintf(args, sizeof args, "\"0x%x\"", (unsigned)g_a);
-    else if (n == 2) std::snprintf(args, sizeof args, "\"0x%x\",\"0x%x\"", (unsigned)g_a, (unsigned)g_b);
-    else std::snprintf(args, sizeof args, "\"0x%x\",\"0x%x\",\"0x%x\"", (unsigned)g_a, (unsigned)g_b, (unsigned)g_c);
-    int len = std::snprintf(buf, sizeof buf,
-                            "\n@@{\"t\":\"viol\",\"sig\":\"C08/%s/crash/%s\",\"msg\":\"[%s] %s died with %s on operands %s (bit patterns)\",\"replay\":[\"--one\",\"%s\",%s]}\n"
-                            "@@{\"t\":\"cap\",\"v\":\"a harness process died with %s in %s; the rest of its shard was not enumerated\"}\n"
-                            "@@{\"t\":\"crashed\"}\n@@{\"t\":\"done\"}\n",
-                            (const char*)g_fn, sn, C08_BUILD, (const char*)g_fn, sn, args, (const char*)g_fn, args, sn, (const char*)g_fn);
-    std::fflush(stdout);
-    if (len > 0) { ssize_t w = write(1, buf, size_t(len)); (void)w; }
-    _exit(0);
+    const char* fn = g_fn;
+    const int n = g_nargs;
+    const bool isf = std::strncmp(fn, "float2half", 10) == 0;
+    std::vector<std::string> rp = {"--one", fn, hx(g_a, isf ? 8 : 4)};
+    std::string ops = rp[2];
+    if (n >= 2) { rp.push_back(hx(g_b, 4)); ops += " " + rp.back(); }
+    if (n >= 3) { rp.push_back(hx(g_c, 4)); ops += " " + rp.back(); }
+    vf::violation(std::string("C08/") + fn + "/crash/" + signame, std::string("[") + C08_BUILD + "] " + fn + " died with " + signame + " on operands " + ops + " (bit patterns)", rp);
 }
 static void install_handlers()
 {
-    int sigs[] = {SIGFPE, SIGSEGV, SIGILL, SIGBUS, SIGABRT};
-    for (int s : sigs) std::signal(s, on_signal);
+    vf::crash_hook() = crash_hook;
+    vf::install_crash_handler();
 }
 
 // ------------------------------------------------------------------ result streams (digest / dump / nth)
@@ -189,7 +184,20 @@ static inline void account(const rinfo& ri, uint16_t expect)
     g_exact0 += ri.exact_zero;
 }
 
-static std::string round_class(const rinfo& ri, const std::vector<uint16_t>& ops, uint16_t expect)
+struct ops_t
+{
+    uint16_t v[3];
+    int n;
+    ops_t() : n(0) {}
+    ops_t(uint16_t a) : n(1) { v[0] = a; }
+    ops_t(uint16_t a, uint16_t b) : n(2) { v[0] = a; v[1] = b; }
+    ops_t(uint16_t a, uint16_t b, uint16_t c) : n(3) { v[0] = a; v[1] = b; v[2] = c; }
+    const uint16_t* begin() const { return v; }
+    const uint16_t* end() const { return v + n; }
+    size_t size() const { return size_t(n); }
+    uint16_t operator[](size_t i) const { return v[i]; }
+};
+static std::string round_class(const rinfo& ri, const ops_t& ops, uint16_t expect)
 {
     bool any_nan = false, any_inf = false;
     for (uint16_t o : ops) { any_nan |= href::is_nan16(o); any_inf |= href::is_inf16(o); }
@@ -216,8 +224,47 @@ static std::string fail_kind(uint16_t expect, uint16_t got)
     return "wrong-value";
 }
 
-static __attribute__((noinline, cold)) void fail_half(const char* fn, std::vector<uint16_t> ops, uint16_t expect, uint16_t got, const rinfo& ri)
+// Throttle: a broken build can fail on billions of inputs. Per (function, rounding situation, failure kind) only the first
+// 20 failures are formatted (the reporter prints the first one per signature); the rest are only counted.
+static long long g_fail_total = 0, g_fail_throttled = 0;
+static inline int kind_code(uint16_t expect, uint16_t got)
 {
+    if (href::is_nan16(expect)) return 0;
+    if (href::is_nan16(got)) return 1;
+    if ((expect ^ got) == 0x8000) return 2;
+    if ((expect & 0x8000) == (got & 0x8000))
+    {
+        int d = int(got & 0x7FFF) - int(expect & 0x7FFF);
+        if (d == 1) return 3;
+        if (d == -1) return 4;
+    }
+    return 5;
+}
+static bool throttled(const void* fn, unsigned cls_bits, int kind)
+{
+    static unsigned short seen[4096];
+    ++g_fail_total;
+    uint64_t k = (uint64_t(uintptr_t(fn)) * 0x9E3779B97F4A7C15ull) ^ (uint64_t(cls_bits) * 0xC2B2AE3D27D4EB4Full) ^ (uint64_t(kind) * 0x165667B19E3779F9ull);
+    unsigned short& c = seen[(k >> 40) & 4095];
+    if (c >= 20) { ++g_fail_throttled; return true; }
+    ++c;
+    return false;
+}
+static inline unsigned ri_bits(const rinfo& ri, unsigned extra)
+{
+    return unsigned(ri.exact_zero) | unsigned(ri.inexact) << 1 | unsigned(ri.tie) << 2 | unsigned(ri.up) << 3 | unsigned(ri.res_sub) << 4 | unsigned(ri.overflow) << 5 |
+           unsigned(ri.near_overflow) << 6 | unsigned(ri.special) << 7 | extra << 8;
+}
+static unsigned ops_bits(const ops_t& ops)
+{
+    unsigned b = 0;
+    for (uint16_t o : ops) b |= href::is_nan16(o) ? 1u : href::is_inf16(o) ? 2u : 0u;
+    return b;
+}
+
+static __attribute__((noinline, cold)) void fail_half(const char* fn, const ops_t& ops, uint16_t expect, uint16_t got, const rinfo& ri)
+{
+    if (throttled(fn, ri_bits(ri, ops_bits(ops) | (href::is_nan16(expect) ? 4u : 0u) | (href::is_inf16(expect) ? 8u : 0u)), kind_code(expect, got))) return;
     std::string cls = round_class(ri, ops, expect);
     std::string sig = std::string("C08/") + fn + "/" + cls + "/" + fail_kind(expect, got);
     std::string msg = std::string("[") + C08_BUILD + "] " + fn + "(";
@@ -326,10 +373,11 @@ static const char* fclass(uint32_t u)
 }
 static __attribute__((noinline, cold)) void fail_f2h(const char* fn, uint32_t u, uint16_t expect, uint16_t got, const rinfo& ri)
 {
+    if (throttled(fn, ri_bits(ri, (fnan(u) ? 1u : 0u) | ((u & 0x7FFFFFFFu) == 0x7F800000u ? 2u : 0u)), kind_code(expect, got))) return;
     std::string cls;
     if (fnan(u)) cls = "nan-operand";
     else if ((u & 0x7FFFFFFFu) == 0x7F800000u) cls = "inf-operand";
-    else cls = round_class(ri, {}, expect);
+    else cls = round_class(ri, ops_t(), expect);
     std::string sig = std::string("C08/") + fn + "." C08_PATH "/" + cls + "/" + fail_kind(expect, got);
     char v[64];
     std::snprintf(v, sizeof v, "%.9g", (double)mkf(u));
@@ -377,7 +425,7 @@ static void mode_f2h(int shard, int nshard, bool samples)
             char v[64];
             std::snprintf(v, sizeof v, "%.9g", (double)mkf(pick));
             std::printf("@@{\"t\":\"xs\",\"k\":\"float2half/%d\",\"v\":\"half(float %s = %s) == %s  [%s]\"}\n", c, hx(pick, 8).c_str(), v, h2s(impl_f2h_ctor(mkf(pick))).c_str(),
-                        round_class(ri, {}, e).c_str());
+                        round_class(ri, ops_t(), e).c_str());
             ++nsamp;
         }
     }
@@ -414,7 +462,7 @@ static void judge_h2d(const char* fn, int sid, uint16_t a, double got)
     if (g_verbose) std::printf("@@{\"t\":\"res\",\"fn\":\"%s\",\"v\":\"%016llx\"}\n", fn, (unsigned long long)(dnan(g) ? 0x7FF8000000000000ull : g));
 }
 // sign-only operations: agree with the float operation on the converted value (value exact; for NaN: still a NaN, same sign bit as the float result)
-static void judge_signop(const char* fn, int sid, std::vector<uint16_t> ops, float fexpect, uint16_t got)
+static void judge_signop(const char* fn, int sid, const ops_t& ops, float fexpect, uint16_t got)
 {
     const uint32_t fe = fbits(fexpect);
     ++g_eval;
@@ -461,7 +509,7 @@ static void one_unary(uint16_t a, const char* only = nullptr)
         const uint16_t e = href::sqrt(d, &ri), r = impl_sqrt(h);
         ++g_eval;
         account(ri, e);
-        if (!same_half(e, r)) fail_half("sqrt", {a}, e, r, ri);
+        if (!same_half(e, r)) fail_half("sqrt", ops_t(a), e, r, ri);
         emit(S_SQRT, href::canon16(r), r);
         ASAN_CHECK("sqrt");
         if (g_verbose) std::printf("@@{\"t\":\"res\",\"fn\":\"sqrt\",\"v\":\"%04x\",\"expect\":\"%04x\"}\n", href::canon16(r), e);
@@ -481,8 +529,8 @@ static void one_unary(uint16_t a, const char* only = nullptr)
     if (want("signbit")) { CUR("signbit"); bool r = half_float::signbit(h); ++g_eval; packed |= r << 4; if (r != e_sign) fail_bool("signbit", a, "sign bit / std::signbit(float)", e_sign, r); if (g_verbose) std::printf("@@{\"t\":\"res\",\"fn\":\"signbit\",\"v\":\"%d\"}\n", r); }
     if (want("fpclassify")) { CUR("fpclassify"); int r = half_float::fpclassify(h); ++g_eval; packed |= unsigned(r & 0xFF) << 8; if (r != e_fpc) fail_bool("fpclassify", a, "FP_* constant of the binary16 class", e_fpc, r); if (g_verbose) std::printf("@@{\"t\":\"res\",\"fn\":\"fpclassify\",\"v\":\"%d\"}\n", r); }
     if (!only) emit1(S_CLASS, packed);
-    if (want("neg")) { CUR("neg"); judge_signop("neg", S_NEG, {a}, -f, bits(-h)); }
-    if (want("fabs")) { CUR("fabs"); judge_signop("fabs", S_FABS, {a}, std::fabs(f), bits(half_float::fabs(h))); }
+    if (want("neg")) { CUR("neg"); judge_signop("neg", S_NEG, ops_t(a), -f, bits(-h)); }
+    if (want("fabs")) { CUR("fabs"); judge_signop("fabs", S_FABS, ops_t(a), std::fabs(f), bits(half_float::fabs(h))); }
     if (want("hash"))
     {
         CUR("hash");
@@ -507,6 +555,7 @@ static void mode_unary(const std::vector<uint16_t>& alpha)
 static const char* const cmpname[6] = {"eq", "ne", "lt", "gt", "le", "ge"};
 static __attribute__((noinline, cold)) void fail_cmp(int i, uint16_t a, uint16_t b, bool expect, bool got)
 {
+    if (throttled(cmpname[i], unsigned(DEC[a].cls) | unsigned(DEC[a].neg) << 3 | unsigned(DEC[b].cls) << 4 | unsigned(DEC[b].neg) << 7, int(got))) return;
     static const char* sym[6] = {"==", "!=", "<", ">", "<=", ">="};
     vf::violation(std::string("C08/") + cmpname[i] + "/" + bclass(a) + "," + bclass(b) + "/wrong-result",
                   std::string("[") + C08_BUILD + "] " + h2s(a) + " " + sym[i] + " " + h2s(b) + " returned " + (got ? "true" : "false") + ", the float comparison of the converted operands says " + (expect ? "true" : "false"),
@@ -544,10 +593,10 @@ static inline void one_pair(uint16_t a, uint16_t b, const dec& da, const dec& db
         account(r1, e1);
         account(r2, e2);
         account(r3, e3);
-        if (__builtin_expect(!same_half(e0, g0), 0)) fail_half("add", {a, b}, e0, g0, r0);
-        if (__builtin_expect(!same_half(e1, g1), 0)) fail_half("sub", {a, b}, e1, g1, r1);
-        if (__builtin_expect(!same_half(e2, g2), 0)) fail_half("mul", {a, b}, e2, g2, r2);
-        if (__builtin_expect(!same_half(e3, g3), 0)) fail_half("div", {a, b}, e3, g3, r3);
+        if (__builtin_expect(!same_half(e0, g0), 0)) fail_half("add", ops_t(a, b), e0, g0, r0);
+        if (__builtin_expect(!same_half(e1, g1), 0)) fail_half("sub", ops_t(a, b), e1, g1, r1);
+        if (__builtin_expect(!same_half(e2, g2), 0)) fail_half("mul", ops_t(a, b), e2, g2, r2);
+        if (__builtin_expect(!same_half(e3, g3), 0)) fail_half("div", ops_t(a, b), e3, g3, r3);
         emit1(S_ADD, href::canon16(g0));
         emit1(S_SUB, href::canon16(g1));
         emit1(S_MUL, href::canon16(g2));
@@ -588,7 +637,11 @@ static inline void one_pair(uint16_t a, uint16_t b, const dec& da, const dec& db
         bool ok;
         if (fnan(feb)) ok = href::is_nan16(cs) && (cs >> 15) == (feb >> 31);
         else ok = href::from_f32_bits(feb) == cs;
-        if (__builtin_expect(!ok || g_verbose, 0)) { g_eval -= 1; judge_signop("copysign", S_COPYSIGN, {a, b}, fe, cs); }
+        if (__builtin_expect((!ok || g_verbose) && (g_verbose || !throttled("copysign", unsigned(da.cls) | unsigned(da.neg) << 3 | unsigned(db.cls) << 4 | unsigned(db.neg) << 7, 0)), 0))
+        {
+            g_eval -= 1;
+            judge_signop("copysign", S_COPYSIGN, ops_t(a, b), fe, cs);
+        }
         else emit(S_COPYSIGN, href::is_nan16(cs) ? uint16_t((cs & 0x8000) | 0x7E00) : cs, cs);
     }
 }
@@ -639,7 +692,7 @@ static inline void one_fma(int sid, uint16_t a, uint16_t b, uint16_t c)
     ASAN_CHECK("fma");
     ++g_eval;
     account(ri, e);
-    if (__builtin_expect(!same_half(e, g), 0)) fail_half("fma", {a, b, c}, e, g, ri);
+    if (__builtin_expect(!same_half(e, g), 0)) fail_half("fma", ops_t(a, b, c), e, g, ri);
     emit1(sid, href::canon16(g));
     if (g_verbose) std::printf("@@{\"t\":\"res\",\"fn\":\"fma\",\"v\":\"%04x\",\"expect\":\"%04x\"}\n", href::canon16(g), e);
 }
@@ -933,6 +986,7 @@ int main(int argc, char** argv)
     vf::stat("overflow_by_rounding_" C08_BUILD, g_nearovf);
     vf::stat("special_case_results_" C08_BUILD, g_special);
     vf::stat("exact_zero_results_" C08_BUILD, g_exact0);
+    if (g_fail_total) vf::stat("failing_results_" C08_BUILD, g_fail_total);
     vf::done();
     return 0;
 }
